@@ -55,15 +55,22 @@ def Series(params: SeriesParams) -> h.Module:
     unit_conns = {port.name: port for port in par_ports}
 
     # Create the internal series-connected signals, and concatenate them with the series ports
-    i = m.add(h.Signal(name="i", width=params.nser - 1))
+    i = m.add(h.Signal(name=_free_name(m, "i"), width=params.nser - 1))
     unit_conns[series_conns[0].name] = h.Concat(series_conns[0], i)
     unit_conns[series_conns[1].name] = h.Concat(i, series_conns[1])
 
     # Create an array of unit instances
-    m.add(params.nser * params.unit(**unit_conns), name="units")
+    m.add(params.nser * params.unit(**unit_conns), name=_free_name(m, "units"))
 
     # And return the module
     return m
+
+
+def _free_name(m: h.Module, name: str) -> str:
+    """A name for an internal object of generated module `m`, which none of the ports cloned from the unit-cell holds."""
+    while name in m.namespace:
+        name += "_"
+    return name
 
 
 def _io(unit: h.Instantiable) -> dict:
@@ -153,7 +160,7 @@ def Wrapper(m: h.Instantiable) -> h.Module:
     wrapper_io = {p.name: wrapper.add(_clone_port(p)) for p in _io(m).values()}
 
     # Create the inner instance
-    wrapper.add(h.Instance(name="inner", of=m)(**wrapper_io))
+    wrapper.add(h.Instance(name=_free_name(wrapper, "inner"), of=m)(**wrapper_io))
 
     # And return the wrapper
     return wrapper
